@@ -37,6 +37,12 @@ CLAIMED = {
             "exact reference (closed forms, sort-based simplex, PAVA, exact unimodal regression, LAPACK SVD) and against random "
             "feasible competitors; projections re-applied; convex operators tested for firm non-expansiveness. Sampled, sizes <= 8x4.",
             "Trusted: the harness' reference algorithms (cross-checked by the competitor search), numpy.linalg.", "DESIGN.md §2 C12"),
+    "C13": ("runtime KKT-certificate monitor on solver returns + objective gap to an independent NNLS reference",
+            "Seeded well-conditioned problems with planted active/inactive constraints, cold and warm starts and l1/ridge penalties "
+            "are solved by the real HALS/FISTA/active-set/ADMM code under explicit budgets; each returned point gets a per-input "
+            "optimality certificate (non-negativity, KKT from independent UtU/UtM, objective vs scipy NNLS). Convergence is "
+            "restated as bounded progress; budget-exhausted-but-optimal-objective cases are counted inconclusive.",
+            "Trusted: scipy.optimize.nnls, numpy.linalg. cond(U) <= 50.", "DESIGN.md §2 C13"),
 }
 
 PENDING_REASON = "check not built yet in this session; see DESIGN.md §2 for the planned monitor"
